@@ -35,24 +35,25 @@ def parse_size_literal(s):
 
 # ---- wildcards (C12) -----------------------------------------------------------------------
 
-def wild_match(pattern, s, many, one, ci=True):
-    """Whole-string wildcard match by dynamic programming (no regex translation)."""
+def wild_match(pattern, s, many, one, ci=True, opt=None):
+    """Whole-string wildcard match by dynamic programming (no regex translation).
+    many: any run (incl. empty); one: exactly one character; opt (only used by defect models):
+    zero or one character. Every other character matches itself."""
     if ci:
         pattern = ascii_lower(pattern)
         s = ascii_lower(s)
-    P, S = len(pattern), len(s)
-    prev = [False] * (S + 1)
-    prev[0] = True
-    # dp over pattern
-    cur = prev
-    row = [True] + [False] * S
-    for i in range(1, P + 1):
-        pc = pattern[i - 1]
+    S = len(s)
+    row = [True] + [False] * S      # row[j]: pattern[:i] matches s[:j]
+    for pc in pattern:
         new = [False] * (S + 1)
         if pc == many:
             new[0] = row[0]
             for j in range(1, S + 1):
                 new[j] = row[j] or new[j - 1]
+        elif opt is not None and pc == opt:
+            new[0] = row[0]
+            for j in range(1, S + 1):
+                new[j] = row[j] or row[j - 1]
         else:
             for j in range(1, S + 1):
                 if row[j - 1] and (pc == one or pc == s[j - 1]):
